@@ -139,3 +139,26 @@ PROPS["C16"] = dict(
         technique="exhaustive small-scope enumeration with an exact reference (property-based for UI frames)",
     ),
 )
+
+PROPS["C12"] = dict(
+    pkg="c12",
+    level="exploration",
+    rule=("posts (content + 0..4 attachments of every link type, named or not) and actors (summary) whose body is drawn from a "
+          "grammar of HTML / Markdown / gemtext / plain text in which every link-bearing element gets a unique label (QnZ) and a unique "
+          "target (…/TnE); nesting (linked images, links inside lists/quotes/headers/pre), elements without href/src, widths 1..120. "
+          "The rendering of String(width) is parsed (SGR stripped, whitespace and quote glyphs removed) into label and number tokens, "
+          "bound with a stack; required: numbers are exactly 1..N, SelectLink(k) returns the target of the label bound to k, numbers "
+          "outside 1..N (0, -1, N+1, 1e9, int extremes) open nothing. Non-trivial: N >= 2 and (nested link, attachments, or width < 8). "
+          "Distinct = distinct (kind, document, attachments, width)."),
+    units=[
+        rapid("Prop", "TestProp", 24000, 600000),
+    ],
+    manifest=dict(
+        text=("Property-based testing with ground truth by construction: generator-assigned unique labels and targets, the shown "
+              "numbers parsed back out of the real rendering and compared with SelectLink. Sampled."),
+        design_ref="DESIGN.md §3 C12",
+        note=("Trusted: the token parser in harness/c12 and the emulator; generated documents are well-nested so that the HTML parser "
+              "does not clone anchors; attachment members are well-formed (have a URL)."),
+        technique="property-based testing (rapid) with ground-truth labels and a round-trip through the rendering",
+    ),
+)
